@@ -145,7 +145,8 @@ def check(run):
                           "half": "reservations", "trace_stats": stats, "hook_h1_events": hook,
                           "new_claims": sum(s.get("claims", 0) for s in sums), "pod_errors": sum(s.get("errors", 0) for s in sums),
                           "panics": sum(1 for s in sums if s.get("panic"))})
-    if stats.get("holdingSteps", 0) == 0 or stats.get("deferrals", 0) == 0 or stats.get("releases", 0) == 0:
+    # vacuity guard (only when nothing failed: a changed tree that e.g. never defers must be judged by its violations, not by this)
+    if not run.viol and (stats.get("holdingSteps", 0) == 0 or stats.get("deferrals", 0) == 0 or stats.get("releases", 0) == 0):
         raise vlib.InfraError("vacuous run: no commitment held a reservation / nothing was released / nothing was deferred (%s)" % stats)
     run.assumptions += [
         "capacity of a reservation id = the capacity its offerings declare (all offerings of one id agree in the generated catalogs; "
